@@ -61,6 +61,9 @@ def run(res, tier, seed, replay):
                     res.violation("harness-crash", "harness c17 exited with %d: %s" % (rc, err[-800:]),
                                   dict(kind="harness", cmd="c17 --tier %s --seed %d" % (tier, s), stderr=err[-2000:]))
                 outs.append((s, out))
+                for l in err.split("\n"):
+                    if "inconclusive" in l or "no conclusive" in l:
+                        res.notes.append(l[:300])
     for s, out in outs:
         mism, props = par_correspond(res, "C17", out, drv)
         for p in props:
